@@ -61,7 +61,7 @@ def config_shape(**over):
 def atmo_shape(**over):
     f = dict(_altitude=QDist(Unit.Foot), _pressure=QPress(Unit.InHg, value=Real(lo=0, lo_open=True)),
              _temperature=QTemp(Unit.Fahrenheit), _powder_temp=QTemp(Unit.Celsius),
-             _t0=Real(), _p0=Real(lo=0, lo_open=True), _a0=Real(), _mach=Real(lo=0, lo_open=True),
+             _t0=Real(lo=-90, hi=60), _p0=Real(lo=0, lo_open=True), _a0=Real(lo=-2000, hi=40000), _mach=Real(lo=0, lo_open=True),
              _humidity=Real(lo=0, hi=1), _density_ratio=Real(lo=0), _initializing=Const(False))
     f.update(over)
     return Obj(Atmo, **f)
